@@ -634,8 +634,12 @@ impl<'a, R: ?Sized + std::io::BufRead> Tokenizer<'a, R> {
         let outer_here_state = std::mem::take(&mut self.cross_state.here_state);
         let outer_here_tags = std::mem::take(&mut self.cross_state.current_here_tags);
 
-        let result =
-            self.consume_nested_construct_inner(state, terminating_char, nesting_open, nesting_count);
+        let result = self.consume_nested_construct_inner(
+            state,
+            terminating_char,
+            nesting_open,
+            nesting_count,
+        );
 
         self.cross_state.here_state = outer_here_state;
         self.cross_state.current_here_tags = outer_here_tags;
@@ -1027,8 +1031,7 @@ impl<'a, R: ?Sized + std::io::BufRead> Tokenizer<'a, R> {
 
                             // See `consume_nested_construct`: the pieces of this word must not
                             // be deferred behind a here tag pending on the enclosing line.
-                            let outer_here_state =
-                                std::mem::take(&mut self.cross_state.here_state);
+                            let outer_here_state = std::mem::take(&mut self.cross_state.here_state);
                             let outer_here_tags =
                                 std::mem::take(&mut self.cross_state.current_here_tags);
 
